@@ -72,7 +72,7 @@ fn emit_yaml(fam: &str, text: &[u8], expected: Option<&Parameters>) {
     }
     match expected {
         Some(p) => { l.n(1).f(p.a1).f(p.a2).f(p.b).f(p.c1).f(p.c2).f(p.c3).f(p.c4).j6(&p.offsets); for s in p.sign_corrections { l.i(s as i64); } l.i(p.dof as i64); }
-        None => { l.n(0); }
+        None => { l.n(if fam == "malformed/must-reject" { 2 } else { 0 }); }
     }
     l.arrow();
     enc_result(&mut l, res);
@@ -177,6 +177,20 @@ pub fn c19(seed: u64, n: usize) {
         "opw_kinematics_geometric_parameters: {a1: 1, a2: 2, b: 3, c1: 4, c2: 5, c3: 6, c4: 7}\nopw_kinematics_joint_offsets: [nan, inf, deg( 5 ), deg(), 1e400, ~]\n".into(),
     ];
     for s in &structured { emit_yaml("malformed/structured", s.as_bytes(), None); }
+    // files that are valid YAML but not in the documented format: an error value is promised (and no panic)
+    let off = "opw_kinematics_joint_offsets: [0.0, 0.0, deg(-90.0), 0.0, 0.0, deg(180.0)]";
+    let with_off = |a: &str| -> String {
+        let mut out = String::new();
+        for line in base.lines() { if line.trim_start().starts_with("opw_kinematics_joint_offsets") { out.push_str(a); } else { out.push_str(line); } out.push('\n'); }
+        out
+    };
+    let must: Vec<String> = vec![
+        with_off(&off.replace("deg(-90.0)", "deg(-90.0")), with_off(&off.replace("deg(-90.0)", "deg(")), with_off(&off.replace("deg(-90.0)", "\"deg(90\u{b0}\"")),
+        with_off(&off.replace("deg(180.0)", "deg(180.0")), with_off(&off.replace("deg(-90.0)", "deg(4")), with_off(&off.replace("deg(-90.0)", "deg(x)")),
+        with_off("opw_kinematics_joint_offsets: [0, 0, 0]"), base.replace("a1:", "a9:"),
+        base.replace("opw_kinematics_joint_sign_corrections: [1,1,1,1,1,1]", "opw_kinematics_joint_sign_corrections: [1,1,1,1]"),
+    ];
+    for s in &must { emit_yaml("malformed/must-reject", s.as_bytes(), None); }
     for _ in 0..n {
         let mut bytes = base.clone().into_bytes();
         match r.below(4) {
